@@ -253,7 +253,8 @@ def run_case(case):
         # the number of records of a file with several logical files (one header each, one record per set)
         vio.append({'prop': PROP, 'kind': 'multi-lf-write-aborted', 'mech': 'write-aborted:record-count',
                     'detail': f'{nlf} logical files: write raised {run.wout[1]}: {run.wout[2][:120]}'})
-    if run.data is None and (case['kind'] in ('frames', 'runs', 'data-dict') or 'not a no-format object of this logical file' in run.wout[2]
+    if run.data is None and (case['kind'] in ('frames', 'runs', 'data-dict') or (cls == 'distinct' and not shared)
+                             or 'not a no-format object of this logical file' in run.wout[2]
                              or 'has not been added to the same logical file' in run.wout[2]
                              or 'is not that of any origin of the logical file' in run.wout[2]):
         # these specifications are valid by construction (and none of this workload hands an object to another logical
